@@ -268,7 +268,7 @@ def run_shard(rec):
         if rec.out_of_time():
             rec.count('cut_by_time')
             break
-        fgen = forest.ForestGen(rng, g, share=rng.choice([0.0, 0.2, 0.4]))
+        fgen = forest.ForestGen(rng, g, share=rng.choice([0.0, 0.2, 0.4]), named_tuples=True)
         root = fgen.obj(rng.randint(1, 5)) if rng.random() < 0.8 else fgen.tree(rng.randint(1, 4))
         ncb = rng.choice([0, 1, 1, 1, 2, 2, 3])
         cbs = [rng.choice(fams) for _ in range(ncb)]
